@@ -5,10 +5,48 @@ meta.json (property, what it needs to manifest, what was run, which checks caugh
 import json, os, shutil, sys
 
 SRC = '/tmp/seedout'
-ROUNDS = [('/tmp/seedout', 0), ('/tmp/seedout2', 2), ('/tmp/seedout3', 4), ('/tmp/seedout4', 6)]
+ROUNDS = [('/tmp/seedout', 0), ('/tmp/seedout2', 2), ('/tmp/seedout3', 4), ('/tmp/seedout4', 6), ('/tmp/seedout5', 8)]
 DST = os.path.join(os.path.dirname(os.path.dirname(os.path.abspath(__file__))), 'seeded')
 
 NEEDS = {
+    'C01-10': 'condition::check() returns c(t) == true: WITH expression of arithmetic type whose true value is not 1',
+    'C01-9': 'forbidden check guarded by !reported: a FORBID_CALL selected again after its first hit was reported (or after a no-match listing named it) accepts the call',
+    'C02-10': 'lock narrowed to find() / report_mismatch (as C01-8)',
+    'C02-9': 'hand-written move constructor of expectations<movable> re-hooks matchers in reverse order (as C01-3 / C14-4, other site)',
+    'C03-10': 'over-call report names only the first saturated match (as C15-1, other site)',
+    'C03-9': 'is_satisfied() / is_saturated() no longer take the lock: flags queried by one thread while another makes the calls (TSan)',
+    'C04-10': 'non-fatal reports dropped while an exception is being handled (current_exception): lifetime ends inside a catch block',
+    'C04-9': 'OK report sent before the call is counted: only visible to an OK reporter that throws or re-enters the library',
+    'C05-10': 'retire_predecessors / retire run after the side effects: a SIDE_EFFECT of a sequenced expectation throws (or calls the earlier step), then the earlier step is called again',
+    'C05-9': 'cost() of a handle whose sequence object is gone is always 0 (as C01-5)',
+    'C06-10': '~sequence_type sends its report before dissolving the sequence: only visible to a reporter that makes a mock call while handling the teardown report',
+    'C06-9': 'increment_call before the can_be_called() check (as C04-7 / C01-1)',
+    'C07-10': '~call_matcher no longer unlinks itself: the dying expectation stays findable after the lock is released (second thread calling; call from a destructor of a captured object)',
+    'C07-9': 'find() returns the first match whose cost is not ~0: older FORBID_CALL plus a newer sequenced expectation that is callable but not first in line',
+    'C08-10': 'report_mismatch evaluates every WITH clause behind the first failing one while writing a no-match report',
+    'C08-9': 'by-value trace_return moves from an lvalue RETURN result: LR_RETURN(local) / RETURN(_1) on T& of class type gut the named object; later calls return the empty value',
+    'C09-10': "return_result<Ret> applies std::move to a forwarding reference: RETURN(_n) with a T& parameter / LR_RETURN(local) of class type move from the caller's object",
+    'C09-9': "run_actions stores &params in a member read by return_value: a SIDE_EFFECT re-enters the same expectation, afterwards _N in the outer RETURN refers to the inner call's dead tuple",
+    'C10-10': 'ne / le / ge implemented as !eq / !gt / !lt: wrong for unordered operands (NaN)',
+    'C10-9': '*m null check through is_null(): a user-written handle that is null only through its converting constructor is dereferenced when empty',
+    'C11-10': 'store_as<const char(&)[N]> drops the last member: element list held in an array of const char',
+    'C11-9': 'variadic range_includes moves its lvalue arguments: a named class-type element reused for a second matcher',
+    'C12-10': 'sequence_handler constructor registers first and sets the limits in its body under a second lock acquisition: TIMES before IN_SEQUENCE visible with bounds 1..1 for a moment (atomicity, no data race)',
+    'C12-9': '~call_matcher returns early (skipping sequences.reset() under the lock) when not hooked on a mock: half-built sequenced expectation (inverted RT_TIMES after IN_SEQUENCE) torn down while another thread uses the sequence (TSan)',
+    'C13-10': "~deathwatched sends 'Unexpected destruction' after releasing the lock: reports no longer serialised (second thread)",
+    'C13-9': '~lifetime_monitor skips the still-alive report during stack unwinding',
+    'C14-10': 'mock_func unlocks between run_actions() and return_value(): expectation released on another thread while its RETURN expression is evaluated (use after free)',
+    'C14-9': '~call_matcher no longer resets its sequence handles under the lock (D4 re-introduced)',
+    'C15-10': 'a just-saturated expectation is filed on the saturated list only when its call is over: nested call from its own side effect at the exact count',
+    'C15-9': 'send_report downgrades fatal to non-fatal while the stack is unwinding: only observable with a reporter that does not throw on a fatal report',
+    'C16-10': 'static re-entrancy guard around the OK report, not exception safe: OK reporter that makes a mock call or throws once',
+    'C16-9': 'sendOk fast path skips every OK reporter that is a plain function pointer',
+    'C17-10': 'record passed as c_str(): cut at the first NUL byte of a printed argument',
+    'C17-9': '~trace_agent does not deliver while the stack is unwinding: accepted call made from a destructor during unwinding loses its record',
+    'C18-10': 'stream_sentry constructor resets only base and adjustment: showbase / uppercase / showpos / boolalpha carried by the stream leak into leaf values',
+    'C18-9': 'arrays of char treated as streamable text: char[N] printed as a C string (over-read, cut at NUL) instead of element-wise',
+    'C20-10': "the library lock is taken inside the coroutine body and held across suspensions: a parked coroutine blocks every other thread's mock calls",
+    'C20-9': 'yield loop compiled in only if &promise_type::yield_value is well-formed: promises with an overloaded / templated yield_value produce no CO_YIELD values',
     'C01-7': 'lifetime_monitor::notify retires itself before its predecessors (swapped blocks + the existing !is_retired guard): sequence [optional / ranged call step, REQUIRE_DESTRUCTION, later step], object dies in order, the earlier step is called again',
     'C01-8': 'lock narrowed to find() / report_mismatch in mock_func (selection and counting no longer one critical section): two threads calling an expectation that has one call left (atomicity, no data race)',
     'C02-7': 'retire_until retires a passed-over step from every sequence it names: optional step in two sequences passed over in one of them; a later step of the other sequence then outranks an older unsequenced expectation',
